@@ -13,19 +13,27 @@ From Boltons Require Import Lib.Prelude Lib.C03_Conc.
 Section Serial.
   Variables (shared act ares : Type).
   Variable sem : act -> shared -> shared * ares.
+  Variables (stats sact sres : Type).
+  Variable ssem : sact -> stats -> stats * sres.
   Variables (OP RV : Type).
-  Variable compile : OP -> @prog act ares RV.
+  Variable compile : OP -> @prog act ares sact sres RV.
 
-  Notation prog := (@prog act ares).
-  Notation thread := (@thread act ares OP RV).
-  Notation mstate := (@mstate shared act ares OP RV).
+  Notation prog := (@prog act ares sact sres).
+  Notation thread := (@thread act ares sact sres OP RV).
+  Notation mstate := (@mstate shared act ares stats sact sres OP RV).
+
+  (* after the critical section: nothing but accesses to the statistics, then the return *)
+  Inductive post {A} : prog A -> A -> Prop :=
+  | post_ret a : post (Ret a) a
+  | post_stat sp q a : post q a -> post (Stat sp q) a.
 
   (* inside a critical section at lock depth d >= 1 *)
   Inductive in_cs {A} : nat -> prog A -> Prop :=
   | cs_act d a k : (forall r, in_cs (S d) (k r)) -> in_cs (S d) (Act a k)
   | cs_acq d k : in_cs (S (S d)) k -> in_cs (S d) (Acq k)
   | cs_rel_in d k : in_cs (S d) k -> in_cs (S (S d)) (Rel k)
-  | cs_rel_out a : in_cs 1 (Rel (Ret a)).
+  | cs_stat d sp k : in_cs (S d) k -> in_cs (S d) (Stat sp k)
+  | cs_rel_out q a : post q a -> in_cs 1 (Rel q).
 
   Definition one_cs {A} (p : prog A) : Prop := exists k, p = Acq k /\ in_cs 1 k.
 
@@ -34,7 +42,8 @@ Section Serial.
   | bal_ret a : bal 0 (Ret a)
   | bal_act e a k : (forall r, bal e (k r)) -> bal e (Act a k)
   | bal_acq e k : bal (S e) k -> bal e (Acq k)
-  | bal_rel e k : bal e k -> bal (S e) (Rel k).
+  | bal_rel e k : bal e k -> bal (S e) (Rel k)
+  | bal_stat e sp k : bal e k -> bal e (Stat sp k).
 
   Lemma bal_bind {A B} (f : A -> prog B) :
     (forall a, bal 0 (f a)) -> forall e (p : prog A), bal e p -> bal e (bind p f).
@@ -44,6 +53,7 @@ Section Serial.
     - apply bal_act. intro r. apply H0.
     - apply bal_acq. exact IHbal.
     - apply bal_rel. exact IHbal.
+    - apply bal_stat. exact IHbal.
   Qed.
 
   Lemma bal_with_lock {A} b (p : prog A) : bal 0 p -> bal 0 (with_lock b p).
@@ -55,7 +65,8 @@ Section Serial.
       - apply bal_rel. apply bal_ret.
       - apply bal_act. intro r. apply H1.
       - apply bal_acq. exact IHHq.
-      - apply bal_rel. exact IHHq. }
+      - apply bal_rel. exact IHHq.
+      - apply bal_stat. exact IHHq. }
     apply G. exact H.
   Qed.
 
@@ -68,9 +79,18 @@ Section Serial.
     - apply cs_act. intro r. apply H0.
     - apply cs_acq. replace (S (S (d + e))) with (S d + S e) by lia. exact IHbal.
     - replace (d + S e) with (S (d + e)) by lia. apply cs_rel_in. exact IHbal.
+    - apply cs_stat. exact IHbal.
   Qed.
 
-  Definition pure_tail {A B} (h : A -> prog B) : Prop := forall a, exists b, h a = Ret b.
+  Definition pure_tail {A B} (h : A -> prog B) : Prop := forall a, exists b, post (h a) b.
+
+  Lemma post_bind {A B} (h : A -> prog B) : pure_tail h ->
+    forall (q : prog A) a, post q a -> exists b, post (bind q h) b.
+  Proof.
+    intros Hh q a H. induction H; simpl.
+    - apply Hh.
+    - destruct IHpost as [b Hb]. exists b. apply post_stat. exact Hb.
+  Qed.
 
   Lemma in_cs_bind_pure {A B} (h : A -> prog B) :
     pure_tail h -> forall d (p : prog A), in_cs d p -> in_cs d (bind p h).
@@ -79,7 +99,8 @@ Section Serial.
     - apply cs_act. intro r. apply H0.
     - apply cs_acq. exact IHin_cs.
     - apply cs_rel_in. exact IHin_cs.
-    - destruct (Hh a) as [b Eb]. rewrite Eb. apply cs_rel_out.
+    - apply cs_stat. exact IHin_cs.
+    - destruct (post_bind h Hh q a H) as [b Hb]. eapply cs_rel_out. exact Hb.
   Qed.
 
   Lemma one_cs_bind_pure {A B} (h : A -> prog B) (p : prog A) :
@@ -95,15 +116,18 @@ Section Serial.
     intro H. unfold with_lock, one_cs. eexists. split; [reflexivity|].
     apply (bal_in_cs (fun r => Rel (Ret r)) 0) with (e := 0) in H.
     - exact H.
-    - intro a. apply cs_rel_out.
+    - intro a. eapply cs_rel_out. apply post_ret.
   Qed.
+
+  Lemma arun_post {A} (q : prog A) a sh : post q a -> arun sem q sh = (sh, a).
+  Proof. intro H. induction H; simpl; auto. Qed.
 
   (* ---- the simulation ------------------------------------------------------------ *)
   Variable progs : nat -> list OP.
   Variable sh0 : shared.
   Hypothesis compile_one_cs : forall o, one_cs (compile o).
 
-  Notation step := (step sem compile true).
+  Notation step := (step sem ssem compile true).
   Notation serial := (serial sem compile).
   Notation serial_step := (serial_step sem compile).
 
@@ -113,7 +137,7 @@ Section Serial.
     | None => t_todo th = todoS /\ t_done th = doneS
     | Some p =>
         (exists o, todoS = o :: t_todo th /\ t_done th = doneS /\ p = compile o)
-        \/ (exists a, p = Ret a /\ t_todo th = todoS /\ t_done th ++ [a] = doneS)
+        \/ (exists a, post p a /\ t_todo th = todoS /\ t_done th ++ [a] = doneS)
     end.
 
   Definition holder_ok (th : thread) (d : nat) (sh shS : shared) (todoS : list OP) (doneS : list RV) : Prop :=
@@ -131,7 +155,9 @@ Section Serial.
 
   Definition inv (s : mstate) : Prop := exists order, inv_with order s.
 
-  Lemma inv_init : inv (init_state sh0 progs).
+  Variable st0 : stats.
+
+  Lemma inv_init : inv (init_state sh0 st0 progs).
   Proof.
     exists []. unfold inv_with, serial. simpl. split; [reflexivity|].
     intro t. unfold idle_ok. simpl. auto.
@@ -157,12 +183,15 @@ Section Serial.
   Lemma idle_shape th todoS doneS p :
     idle_ok th todoS doneS -> t_cur th = Some p ->
     (exists o k, p = compile o /\ p = Acq k /\ in_cs 1 k /\ todoS = o :: t_todo th /\ t_done th = doneS)
-    \/ (exists a, p = Ret a /\ t_todo th = todoS /\ t_done th ++ [a] = doneS).
+    \/ (exists a, post p a /\ t_todo th = todoS /\ t_done th ++ [a] = doneS).
   Proof.
     unfold idle_ok. intros H E. rewrite E in H. destruct H as [[o [H1 [H2 H3]]]|H]; [left|right; exact H].
     destruct (compile_is_acq o) as [k [Ek Hk]].
     exists o, k. subst p. auto.
   Qed.
+
+  Lemma post_not_acq {A} (k : prog A) a : ~ post (Acq k) a.
+  Proof. intro H. inversion H. Qed.
 
   Theorem step_preserves_inv t s s' : inv s -> step t s = Some s' -> inv s'.
   Proof.
@@ -176,7 +205,7 @@ Section Serial.
       + (* the holder moves *)
         destruct HO as [p [op [Ecur [Hcs [Etodo [Edone Erun]]]]]].
         rewrite Ecur in St.
-        destruct p as [a|k|k|a k].
+        destruct p as [a|k|k|a k|sp k].
         * exfalso. eapply not_cs_ret; eauto.
         * (* nested acquire *)
           rewrite Nat.eqb_refl in St. simpl in St. inversion St; subst s'; clear St.
@@ -193,9 +222,11 @@ Section Serial.
           -- (* the outermost release: the operation takes effect here *)
              exists (order ++ [o]). unfold inv_with. rewrite serial_snoc, ES.
              unfold C03_Conc.serial_step. rewrite Etodo.
-             simpl in Erun. rewrite <- Erun. simpl. split; [reflexivity|].
+             simpl in Erun. rewrite <- Erun.
+             match goal with H : post _ _ |- _ => rewrite (arun_post _ _ _ H); pose proof H as Pk end.
+             simpl. split; [reflexivity|].
              intro u. destruct (Nat.eq_dec u o) as [->|Hu].
-             ++ rewrite !upd_same. unfold idle_ok. simpl. right. exists a. repeat split; auto.
+             ++ rewrite !upd_same. unfold idle_ok. simpl. right. eexists. split; [exact Pk|]. split; [reflexivity|].
                 rewrite Edone. reflexivity.
              ++ rewrite !upd_other by exact Hu. apply ID; exact Hu.
         * (* an action on the shared state *)
@@ -205,6 +236,18 @@ Section Serial.
           -- exists (k r), op. rewrite upd_same. simpl. inversion Hcs; subst.
              repeat split; auto. rewrite <- Erun. simpl. rewrite Esem. reflexivity.
           -- intros u Hu. rewrite upd_other by exact Hu. apply ID; exact Hu.
+        * (* an access to the statistics inside the critical section *)
+          assert (Hk : in_cs d k) by (inversion Hcs; subst; assumption).
+          destruct sp as [|sa f].
+          -- inversion St; subst s'; clear St.
+             exists order. unfold inv_with. rewrite ES. simpl. rewrite ?EL. split.
+             ++ exists k, op. rewrite upd_same. simpl. repeat split; auto.
+             ++ intros u Hu. rewrite upd_other by exact Hu. apply ID; exact Hu.
+          -- destruct (ssem sa (m_st s)) as [st' r]. inversion St; subst s'; clear St.
+             exists order. unfold inv_with. rewrite ES. simpl. rewrite ?EL. split.
+             ++ exists (Stat (f r) k), op. rewrite upd_same. simpl. repeat split; auto.
+                inversion Hcs; subst. apply cs_stat. assumption.
+             ++ intros u Hu. rewrite upd_other by exact Hu. apply ID; exact Hu.
       + (* another thread moves while o holds the lock: it cannot touch the shared state *)
         specialize (ID t Nto) as IDt.
         destruct (t_cur (m_thr s t)) as [p|] eqn:Ecur.
@@ -213,12 +256,28 @@ Section Serial.
              subst p. rewrite E2 in St.
              assert (Nat.eqb o t = false) as F by (apply Nat.eqb_neq; auto).
              rewrite F in St. simpl in St. discriminate.
-          -- subst p. inversion St; subst s'; clear St.
-             exists order. unfold inv_with. rewrite ES. simpl. rewrite ?EL. split.
-             ++ rewrite upd_other by auto. exact HO.
-             ++ intros u Hu. destruct (Nat.eq_dec u t) as [->|Hut].
-                ** rewrite upd_same. unfold idle_ok. simpl. auto.
-                ** rewrite upd_other by exact Hut. apply ID; exact Hu.
+          -- (* recording its result / finishing its statistics *)
+             assert (KEEP : forall s1 p1, post p1 a ->
+                       s1 = mkState (m_sh s) (m_st s1) (Some (o, d))
+                                    (upd (m_thr s) t (mkThread (Some p1) (t_todo (m_thr s t)) (t_done (m_thr s t)))) ->
+                       inv s1).
+             { intros s1 p1 P1 ->. exists order. unfold inv_with. rewrite ES. simpl. split.
+               - rewrite upd_other by auto. exact HO.
+               - intros u Hu. destruct (Nat.eq_dec u t) as [->|Hut].
+                 + rewrite upd_same. unfold idle_ok. simpl. right. exists a. auto.
+                 + rewrite upd_other by exact Hut. apply ID; exact Hu. }
+             destruct E1 as [a|sp q a Pq].
+             ++ inversion St; subst s'; clear St.
+                exists order. unfold inv_with. rewrite ES. simpl. rewrite ?EL. split.
+                ** rewrite upd_other by auto. exact HO.
+                ** intros u Hu. destruct (Nat.eq_dec u t) as [->|Hut].
+                   --- rewrite upd_same. unfold idle_ok. simpl. auto.
+                   --- rewrite upd_other by exact Hut. apply ID; exact Hu.
+             ++ destruct sp as [|sa f].
+                ** inversion St; subst s'; clear St. unfold set_thr. rewrite EL.
+                   eapply (KEEP _ q Pq). simpl. reflexivity.
+                ** destruct (ssem sa (m_st s)) as [st' r]. inversion St; subst s'; clear St. rewrite ?EL.
+                   eapply (KEEP _ (Stat (f r) q) (post_stat _ _ _ Pq)). simpl. reflexivity.
         * unfold idle_ok in IDt. rewrite Ecur in IDt. destruct IDt as [E1 E2].
           destruct (t_todo (m_thr s t)) as [|op rest] eqn:Etd; [discriminate|].
           inversion St; subst s'; clear St.
@@ -238,11 +297,25 @@ Section Serial.
           -- exists k, op. rewrite upd_same. simpl. repeat split; auto.
              rewrite E2. simpl. rewrite Esh. reflexivity.
           -- intros u Hu. rewrite upd_other by exact Hu. apply ID.
-        * subst p. inversion St; subst s'; clear St.
-          exists order. unfold inv_with. rewrite ES. simpl. rewrite ?EL. split; [exact Esh|].
-          intro u. destruct (Nat.eq_dec u t) as [->|Hut].
-          -- rewrite upd_same. unfold idle_ok. simpl. auto.
-          -- rewrite upd_other by exact Hut. apply ID.
+        * assert (KEEP : forall s1 p1, post p1 a ->
+                       s1 = mkState (m_sh s) (m_st s1) None
+                                    (upd (m_thr s) t (mkThread (Some p1) (t_todo (m_thr s t)) (t_done (m_thr s t)))) ->
+                       inv s1).
+          { intros s1 p1 P1 ->. exists order. unfold inv_with. rewrite ES. simpl. split; [exact Esh|].
+            intro u. destruct (Nat.eq_dec u t) as [->|Hut].
+            - rewrite upd_same. unfold idle_ok. simpl. right. exists a. auto.
+            - rewrite upd_other by exact Hut. apply ID. }
+          destruct E1 as [a|sp q a Pq].
+          -- inversion St; subst s'; clear St.
+             exists order. unfold inv_with. rewrite ES. simpl. rewrite ?EL. split; [exact Esh|].
+             intro u. destruct (Nat.eq_dec u t) as [->|Hut].
+             ++ rewrite upd_same. unfold idle_ok. simpl. auto.
+             ++ rewrite upd_other by exact Hut. apply ID.
+          -- destruct sp as [|sa f].
+             ++ inversion St; subst s'; clear St. unfold set_thr. rewrite EL.
+                eapply (KEEP _ q Pq). simpl. reflexivity.
+             ++ destruct (ssem sa (m_st s)) as [st' r]. inversion St; subst s'; clear St. rewrite ?EL.
+                eapply (KEEP _ (Stat (f r) q) (post_stat _ _ _ Pq)). simpl. reflexivity.
       + unfold idle_ok in IDt. rewrite Ecur in IDt. destruct IDt as [E1 E2].
         destruct (t_todo (m_thr s t)) as [|op rest] eqn:Etd; [discriminate|].
         inversion St; subst s'; clear St.
@@ -252,7 +325,7 @@ Section Serial.
         * rewrite upd_other by exact Hut. apply ID.
   Qed.
 
-  Lemma run_preserves_inv sched : forall s, inv s -> inv (run sem compile true sched s).
+  Lemma run_preserves_inv sched : forall s, inv s -> inv (run sem ssem compile true sched s).
   Proof.
     induction sched as [|t r IH]; intros s I; simpl; [exact I|].
     apply IH. unfold step_or_skip. destruct (step t s) eqn:E; [|exact I].
@@ -263,7 +336,7 @@ Section Serial.
      every thread's results are those of a serial execution in which each thread's
      operations ran atomically and in program order, and nothing is left to do. *)
   Theorem serialisable :
-    forall sched, let s := run sem compile true sched (init_state sh0 progs) in
+    forall sched, let s := run sem ssem compile true sched (init_state sh0 st0 progs) in
     finished s ->
     exists order,
       let '(shS, todoS, doneS) := serial order sh0 progs in
@@ -282,7 +355,7 @@ Section Serial.
 
   (* no deadlock: in every reachable state some unfinished thread can move *)
   Theorem progress :
-    forall sched, let s := run sem compile true sched (init_state sh0 progs) in
+    forall sched, let s := run sem ssem compile true sched (init_state sh0 st0 progs) in
     (exists t, t_cur (m_thr s t) <> None \/ t_todo (m_thr s t) <> []) ->
     exists t, step t s <> None.
   Proof.
@@ -296,18 +369,21 @@ Section Serial.
       destruct p; try (rewrite Nat.eqb_refl; simpl; discriminate).
       + exfalso. eapply not_cs_ret; eauto.
       + destruct (sem a (m_sh s)). discriminate.
+      + destruct sp; [discriminate|]. destruct (ssem a (m_st s)). discriminate.
     - exists t. destruct I as [_ ID]. specialize (ID t).
       unfold C03_Conc.step. rewrite EL.
       destruct (t_cur (m_thr s t)) as [p|] eqn:Ecur.
-      + destruct (idle_shape _ _ _ _ ID Ecur) as [[op [k [E1 [E2 _]]]]|[a [E1 _]]]; subst p.
-        * rewrite E2. discriminate.
-        * discriminate.
+      + destruct (idle_shape _ _ _ _ ID Ecur) as [[op [k [E1 [E2 _]]]]|[a [E1 _]]].
+        * subst p. rewrite E2. discriminate.
+        * destruct E1 as [a|sp q a Pq]; [discriminate|].
+          destruct sp; [discriminate|]. destruct (ssem a0 (m_st s)). discriminate.
       + destruct Ht as [Ht|Ht]; [congruence|].
         destruct (t_todo (m_thr s t)); [congruence|discriminate].
   Qed.
 End Serial.
 
-Arguments bal {act ares A} _ _.
-Arguments in_cs {act ares A} _ _.
-Arguments one_cs {act ares A} _.
-Arguments pure_tail {act ares A B} _.
+Arguments post {act ares sact sres A} _ _.
+Arguments bal {act ares sact sres A} _ _.
+Arguments in_cs {act ares sact sres A} _ _.
+Arguments one_cs {act ares sact sres A} _.
+Arguments pure_tail {act ares sact sres A B} _.
